@@ -138,6 +138,8 @@ func c38Ops(m *sx.Model, versioning bool) []sx.Op {
 			sx.Op{Kind: "Put", B: "bka", K: k, Body: "P5", Opt: map[string]string{"ct": "text/plain", "meta": "a=1", "tags": "t=1", "sys": "cache-control=no-cache&content-language=de"}},
 			// (every put carries a content type: an HTTP endpoint reports a default type for objects without one)
 			sx.Op{Kind: "Put", B: "bka", K: k, Body: "e", Opt: map[string]string{"ct": "a/b"}},
+			// tag keys and values with characters that mean something in a query string
+			sx.Op{Kind: "Put", B: "bka", K: k, Body: "c", Opt: map[string]string{"ct": "a/b", "tags": "team+env=a+b&c%d=1/2"}},
 			sx.Op{Kind: "Put", B: "bka", K: k, Body: "a", Opt: map[string]string{"class": "GLACIER", "ct": "a/b"}},
 			sx.Op{Kind: "Put", B: "bka", K: k, Body: "b", Opt: map[string]string{"ifnm": "*", "ct": "a/b"}},
 			sx.Op{Kind: "Delete", B: "bka", K: k},
@@ -146,7 +148,7 @@ func c38Ops(m *sx.Model, versioning bool) []sx.Op {
 			sx.Op{Kind: "DeleteTagging", B: "bka", K: k},
 			sx.Op{Kind: "Append", B: "bka", K: k, Body: "x"},
 			sx.Op{Kind: "Transition", B: "bka", K: k, Opt: map[string]string{"class": "STANDARD_IA"}},
-			sx.Op{Kind: "CreateUpload", B: "bka", K: k, Opt: map[string]string{"ct": "x/y", "meta": "u=1"}},
+			sx.Op{Kind: "CreateUpload", B: "bka", K: k, Opt: map[string]string{"ct": "x/y", "meta": "u=1", "tags": "x+y=p q"}},
 		)
 		for sk := range b.Keys {
 			ops = append(ops, sx.Op{Kind: "Copy", SB: "bka", SK: sk, B: "bka", K: k})
